@@ -1209,11 +1209,49 @@ func (rr *runRec) verdict() string {
 	// the whole statement per goroutine: its part of the expanded output can be cut into consecutive blocks,
 	// one per item in program order, block i made of lo…hi lines of item i in the item's form
 	for g := 0; g < rr.np; g++ {
-		if v := rr.greedy(g, expanded[g]); v != "pass" && !rr.conforms(g, expanded[g]) {
-			return v
+		if v := rr.greedy(g, expanded[g]); v != "pass" {
+			if ok, stuck := rr.conforms(g, expanded[g]); !ok {
+				return rr.diagnose(g, expanded[g], v, stuck)
+			}
 		}
 	}
 	return "pass"
+}
+
+// diagnose corrects the verdict of the greedy walk where it is known to misname: A B A with B LOST arrives as
+// A A, which the walk calls a duplicate of A. A "duplicated" is kept only if the line really is emitted more
+// often than all the items that can take it allow together; otherwise the item at which every cutting gets
+// stuck is named as lost.
+func (rr *runRec) diagnose(g int, got []outw, v string, stuck *item) string {
+	f := strings.Fields(v)
+	if len(f) != 4 || f[1] != "duplicated" || stuck == nil {
+		return v
+	}
+	id := atoi(strings.TrimPrefix(f[3], "i"))
+	var cand []outw
+	for _, o := range got {
+		if o.item == id {
+			cand = append(cand, o)
+		}
+	}
+	for _, o := range cand {
+		n, allow := 0, 0
+		for _, x := range cand {
+			if x.tracer == o.tracer && eqInts(x.entries, o.entries) {
+				n++
+			}
+		}
+		for _, it := range rr.items[g] {
+			if it.matches(o) {
+				_, hi := rr.bounds(it)
+				allow += hi
+			}
+		}
+		if n > allow {
+			return v
+		}
+	}
+	return fmt.Sprintf("fail lost g%d i%d", g, stuck.item)
 }
 
 // matches: can this output line belong to the block of the item (same identity, prescribed form)?
@@ -1260,9 +1298,10 @@ func (rr *runRec) greedy(g int, got []outw) string {
 
 // conforms decides exactly whether SOME cutting into blocks exists (the greedy walk is not exact when an
 // optional or disabled item stands between two items of identical lines: A B A with B absent arrives as A A).
-func (rr *runRec) conforms(g int, got []outw) bool {
+func (rr *runRec) conforms(g int, got []outw) (bool, *item) {
 	cur := []int{0} // positions the items so far can have consumed, ascending
-	for _, it := range rr.items[g] {
+	for i := range rr.items[g] {
+		it := rr.items[g][i]
 		lo, hi := rr.bounds(it)
 		seen := map[int]bool{}
 		var next []int
@@ -1279,12 +1318,12 @@ func (rr *runRec) conforms(g int, got []outw) bool {
 			}
 		}
 		if len(next) == 0 {
-			return false
+			return false, &rr.items[g][i] // every cutting gets stuck here
 		}
 		sort.Ints(next)
 		cur = next
 	}
-	return cur[len(cur)-1] == len(got)
+	return cur[len(cur)-1] == len(got), nil
 }
 
 func monitor(c hxlib.Case, outs []string) (vs []hxlib.Violation) {
@@ -1367,7 +1406,7 @@ func monitor(c hxlib.Case, outs []string) (vs []hxlib.Violation) {
 				if want == "e=1" {
 					sig = "C20:filter:tracer:enabled-line-dropped"
 				}
-				vs = append(vs, hxlib.Violation{Sig: sig, What: fmt.Sprintf("AddTracer + one line of severity %s through its result + Submit, level in force %d: got %s (t=1: a live tracer was handed out)", f[6], inForce(cfg, atoi(f[4])), outs[i]), Lines: []string{l}, Output: []string{outs[i]}})
+				vs = append(vs, hxlib.Violation{Sig: sig, What: fmt.Sprintf("AddTracer + one line of severity %s through its result + Submit, level in force %d: got %s (t: whether AddTracer handed out a live tracer, e: whether the line was handed to the writer)", f[6], inForce(cfg, atoi(f[4])), outs[i]), Lines: []string{l}, Output: []string{outs[i]}})
 			}
 		}
 	case "lv":
